@@ -214,7 +214,7 @@ def run(ctx):
         "Locking-discipline rules the interleaving claim rests on: (R1) every server handler that reaches a mutating "
         "helper takes the account write guard exactly once and runs exactly one helper call (rewind+patch, "
         "merge+diff) on the storage behind it, and the helpers require &mut storage; (R3) read handlers never take the write guard; (R4, shared with C04) no "
-        "CheckedPatch is dropped; (R5, shared with C04) a refused diff is reported to the pushing device as Comparison::Unknown; (R6, shared with C07) the rollback of a refused rewind re-applies the pruned records in append order. Deadlock freedom (lock-order acyclicity) could not be "
+        "CheckedPatch is dropped; (R5, shared with C04) a refused diff is reported to the pushing device as Comparison::Unknown; (R6, shared with C07) the rollback of a refused rewind re-applies the pruned records in append order; (R10, the server-side instances of C07-R3) every exit of the server patch helper after a completed rewind is Success or passes the rollback. Deadlock freedom (lock-order acyclicity) could not be "
         "made exact with a type-level may-hold analysis and is NOT decided; outcomes over interleavings and convergence "
         "are not decided.")
     ctx.trust("tokio RwLock/Mutex semantics", "guard liveness read from StorageDead/Drop in mir_built")
@@ -249,6 +249,13 @@ def run(ctx):
     c04.r7_log_kind_arms(ctx, rule_id="C09-R8")
     # a conflict that is only in one log kind (files) must still be seen as a conflict
     shared(c04.r8_per_kind_aggregates, "C04-R8", "C09-R9")
+    # "the server's logs only ever change by whole accepted patches": on the server
+    # every exit after a completed rewind is Success or passes the rollback.  Only
+    # the server-side instances of C07-R3 are kept (the client side belongs to C07).
+    shared(c07.r3_rewind_undone, "C07-R3", "C09-R10")
+    r10 = ctx.rules[-1]
+    r10.instances = [i for i in r10.instances if "|sos_server" in i["key"]]
+    r10.floor = 1
     if ctx.tier == "thorough" and ctx.config == "workspace":
         from .. import witness
         witness.run(ctx, 'C09-W', 'mutating server helpers need the write guard (type level)', {'PatchNeedsWriteGuard': 'event_patch(req, &mut *read_guard)', 'SyncNeedsWriteGuard': 'sync_account(packet, &mut *read_guard)'})
